@@ -105,6 +105,27 @@ class FilterIt(It):
             if M.concrete_bool(keep, 'filter'): return x
 
 
+class MapWhileIt(It):
+    """map_while / filter_map / take_while / skip_while: closure-driven adaptors"""
+    def __init__(self, inner, f, mode): self.inner, self.f, self.mode, self.done, self.skipping = inner, f, mode, False, True
+    def next(self, M):
+        while not self.done:
+            x = self.inner.next(M)
+            if x is None: return None
+            if self.mode in ('map_while', 'filter_map'):
+                o = M.call_value(self.f, [x])
+                if is_variant(M, o, 1, self.mode): return payload(o, 1)[0]
+                if self.mode == 'map_while': self.done = True; return None
+                continue
+            keep = M.concrete_bool(M.call_value(self.f, [Ref(Cell(x))]), self.mode)
+            if self.mode == 'take_while':
+                if keep: return x
+                self.done = True; return None
+            if self.skipping and keep: continue       # skip_while
+            self.skipping = False; return x
+        return None
+
+
 class ChainIt(It):
     def __init__(self, a, b): self.a, self.b = a, b
     def next(self, M):
@@ -237,6 +258,9 @@ def m_into_iter(M, a, c, fr): return to_iter(M, a[0])
 def m_slice_iter(M, a, c, fr): return SeqIt(a[0] if isinstance(a[0], Ref) else a[0])
 def m_iter_map(M, a, c, fr): return MapIt(to_iter(M, a[0]), a[1])
 def m_iter_filter(M, a, c, fr): return FilterIt(to_iter(M, a[0]), a[1])
+def m_iter_closure_adaptor(M, a, c, fr):
+    mode = re.search(r'as Iterator>::(map_while|filter_map|take_while|skip_while)', c).group(1)
+    return MapWhileIt(to_iter(M, a[0]), a[1], mode)
 def m_iter_chain(M, a, c, fr): return ChainIt(to_iter(M, a[0]), to_iter(M, a[1]))
 def m_iter_enumerate(M, a, c, fr): return EnumerateIt(to_iter(M, a[0]))
 def m_iter_cloned(M, a, c, fr): return ClonedIt(to_iter(M, a[0]))
@@ -370,6 +394,23 @@ def m_index(M, a, c, fr):
     if isinstance(v, ArrVec): return Ref(Cell(z3.Select(v.data, idx)))
     k = M.concrete(idx, 'index')
     return Ref(a[0].cell, a[0].path + (('e', k),))
+
+
+def m_index_range(M, a, c, fr):
+    """v[a..b], v[a..], v[..b], v[..]: an immutable view of the selected elements (concrete bounds on this path)"""
+    v = M.load(a[0]); r = a[1]
+    kind = re.search(r'Index(?:Mut)?<(?:std::ops::|core::ops::)?(RangeFull|RangeFrom|RangeToInclusive|RangeTo|RangeInclusive|Range)\b', c).group(1)
+    if 'index_mut' in c: raise Inconclusive('mutable range index')
+    xs = seq_elems(M, v); n = len(xs)
+    def cv(x): return M.concrete(x, 'range.bound')
+    if kind == 'RangeFull': lo, hi = 0, n
+    elif kind == 'RangeFrom': lo, hi = cv(r[0]), n
+    elif kind == 'RangeTo': lo, hi = 0, cv(r[0])
+    elif kind == 'RangeToInclusive': lo, hi = 0, cv(r[0]) + 1
+    elif kind == 'RangeInclusive': lo, hi = cv(r[0]), cv(r[1]) + 1
+    else: lo, hi = cv(r[0]), cv(r[1])
+    if lo > hi or hi > n: raise Panic('range index out of bounds')
+    return Ref(Cell(ValSlice(xs[lo:hi], getattr(v, 'is_str', False))))
 
 
 def m_slice_get(M, a, c, fr):
@@ -925,6 +966,19 @@ def m_ref_eq(M, a, c, fr):
     return M.call('<%s as PartialEq>::%s' % (inner, m.group(3)), [x, y], fr)
 
 
+def m_from_le_bytes(M, a, c, fr):
+    bs = a[0] if isinstance(a[0], list) else list(a[0].elems)
+    be = 'from_be_bytes' in c
+    xs = list(bs) if be else list(reversed(bs))
+    return z3.Concat(*xs) if len(xs) > 1 else xs[0]
+
+
+def m_to_le_bytes(M, a, c, fr):
+    x = a[0]; n = x.size() // 8
+    bs = [z3.Extract(8 * i + 7, 8 * i, x) for i in range(n)]
+    return list(reversed(bs)) if 'to_be_bytes' in c else bs
+
+
 def m_int_from(M, a, c, fr):
     """lossless integer conversions From<uN>/From<iN>/From<bool> for wider integers; TryFrom between integers"""
     m = re.fullmatch(r'<([ui](?:8|16|32|64|128|size)) as (Try)?From<([ui](?:8|16|32|64|128|size)|bool)>>::(?:try_)?from', c)
@@ -1047,7 +1101,7 @@ MODELS = [
     (r'core::slice::<impl \[.*\]>::iter(_mut)?', m_slice_iter),
     (r'<.* as Iterator>::next', m_iter_next),
     (r'<.* as Iterator>::map::<.*>', m_iter_map),
-    (r'<.* as Iterator>::filter::<.*>', m_iter_filter),
+    (r'<.* as Iterator>::filter::<.*>', m_iter_filter), (r'<.* as Iterator>::(map_while|filter_map|take_while|skip_while)::<.*>', m_iter_closure_adaptor),
     (r'<.* as Iterator>::chain::<.*>', m_iter_chain),
     (r'<.* as Iterator>::enumerate', m_iter_enumerate),
     (r'<.* as Iterator>::cloned::<.*>', m_iter_cloned), (r'<.* as Iterator>::copied::<.*>', m_iter_cloned),
@@ -1068,6 +1122,7 @@ MODELS = [
     (r'Vec::<.*>::push', m_vec_push),
     (r'<Vec<.*> as Deref(Mut)?>::deref(_mut)?', m_ident), (r'Vec::<.*>::as_(mut_)?slice', m_ident),
     (r'<(Vec<.*>|\[.*\]) as Index(Mut)?<usize>>::index(_mut)?', m_index),
+    (r'<(Vec<.*>|\[.*\]) as Index(Mut)?<(std::ops::|core::ops::)?Range\w*(<usize>)?>>::index(_mut)?', m_index_range),
     (r'core::slice::<impl \[.*\]>::get::<usize>', m_slice_get),
     (r'core::slice::<impl \[.*\]>::split_first', m_split_first), (r'core::slice::<impl \[.*\]>::split_last', m_split_last),
     (r'core::slice::<impl \[.*\]>::first', m_slice_first), (r'core::slice::<impl \[.*\]>::last', m_slice_last),
@@ -1123,6 +1178,7 @@ MODELS = [
     (r'<.* as Iterator>::size_hint', m_iter_size_hint), (r'Vec::<.*>::with_capacity', m_vec_with_capacity), (r'Vec::<.*>::reserve(_exact)?', m_vec_reserve),
     (r'(core|alloc|std)::str::<impl str>::\w+(::<.*>)?', m_str_opaque), (r'String::(replace|trim\w*|contains|starts_with|ends_with|len|is_empty)(::<.*>)?', m_str_opaque),
     (r'<[A-Z]\w? as PartialEq>::(eq|ne)', lambda M, a, c, fr: (M.val_eq(deref(M, a[0]), deref(M, a[1])) if c.endswith('eq') else z3.Not(M.val_eq(deref(M, a[0]), deref(M, a[1]))))),
+    (r'core::num::<impl [ui](8|16|32|64|128|size)>::from_(le|be)_bytes', m_from_le_bytes), (r'core::num::<impl [ui](8|16|32|64|128|size)>::to_(le|be)_bytes', m_to_le_bytes),
     (r'<[ui](8|16|32|64|128|size) as (Try)?From<([ui](8|16|32|64|128|size)|bool)>>::(try_)?from', m_int_from),
     (r'<.+ as Into<.+>>::into', m_into_via_from),
     (r'<.* as Clone>::clone', m_clone),
